@@ -201,15 +201,34 @@ def coq_prove(prop_file):
     Returns dict(ok, theorems=[names], failed=[names or file-level], assumptions={thm: text}, output)."""
     vfile = os.path.join(COQ, "props", prop_file + ".v")
     text = read(vfile)
-    thms = re.findall(r"^\s*(?:Theorem|Corollary)\s+([A-Za-z0-9_']+)", text, re.M)
+    thms = re.findall(r"^(?:Theorem|Corollary)\s+([A-Za-z0-9_']+)", text, re.M)
     vo = os.path.join(COQ, "props", prop_file + ".vo")
     # force re-check output of Print Assumptions: remove the .vo so the messages are printed
     if os.path.exists(vo):
         os.unlink(vo)
     ok, out = coq_make(["props/%s.vo" % prop_file])
     assumptions = {}
-    for m in re.finditer(r"ASSUMPTIONS-OF ([A-Za-z0-9_']+)\s*\n(.*?)(?=ASSUMPTIONS-OF|\Z|^COQC|^make)", out, re.S | re.M):
-        assumptions[m.group(1)] = " ".join(m.group(2).split())[:600]
+    asked = re.findall(r"^\s*Print Assumptions\s+([A-Za-z0-9_']+)", text, re.M)
+    blocks, cur = [], None
+    for line in out.split("\n"):
+        if line.startswith("Closed under the global context"):
+            if cur is not None:
+                blocks.append(cur)
+            blocks.append(line); cur = None
+        elif line.startswith("Axioms:"):
+            if cur is not None:
+                blocks.append(cur)
+            cur = line
+        elif re.match(r"COQC|COQDEP|make|File ", line):
+            if cur is not None:
+                blocks.append(cur)
+            cur = None
+        elif cur is not None:
+            cur += " " + line
+    if cur is not None:
+        blocks.append(cur)
+    for name, b in zip(asked, blocks):
+        assumptions[name] = " ".join(b.split())[:800]
     failed = []
     if not ok:
         # find which file / line failed
